@@ -185,6 +185,31 @@ SEM_NAMES = ["A", "B", "Foo", "X.Y", "N"]
 SEM_SUFFIX = ["", "%", "&", "!", "#", "$"]
 
 
+def gen_const_chain(rng):
+    """Constants defined from constants, each a few times the size of the one before (a kilobyte of text whose folded value grows geometrically)."""
+    k = rng.choice([5, 12, 14, 15, 16, 20, 30, 45, 60])
+    kind = rng.randrange(4)
+    if kind == 0:
+        seed, step = rng.choice(['"ab"', '"x"', '""', '"' + "q" * 100 + '"']), lambda a: "%s + %s" % (a, a)
+        sfx = "$"
+    elif kind == 1:
+        seed, step = '"abc"', lambda a: "%s + %s + %s" % (a, a, a)
+        sfx = rng.choice(["$", ""])
+    elif kind == 2:
+        seed, step = rng.choice(["2", "3&", "1.5", "2#", "-2"]), lambda a: "%s %s %s" % (a, rng.choice(["*", "+"]), a)
+        sfx = rng.choice(["", "&", "#", "!", "%"])
+    else:
+        seed, step = rng.choice(['"ab"', "2"]), lambda a: "(%s) + (%s + %s)" % (a, a, a)
+        sfx = ""
+    lines = ["CONST K0%s = %s" % (sfx, seed)]
+    for i in range(1, k):
+        lines.append("CONST K%d%s = %s" % (i, sfx, step("K%d%s" % (i - 1, sfx))))
+    lines.append(rng.choice(["PRINT LEN(K%d%s)" % (k - 1, sfx), "PRINT K%d%s" % (rng.randrange(k), sfx), ""]))
+    if rng.random() < 0.3:
+        rng.shuffle(lines)
+    return "\n".join(lines) + "\n"
+
+
 def gen_semantic_soup(rng):
     """Small programs that reuse one name in many roles (aimed at the linter's internal assumptions)."""
     n = rng.choice(SEM_NAMES)
@@ -253,6 +278,13 @@ def gen_semantic_soup(rng):
     ]
     for _ in range(rng.randrange(2, 9)):
         stmts.append(rng.choice(forms)())
+    if rng.random() < 0.1:
+        # a shared array re-dimensioned several times inside one subprogram (with and without a local array of the same name)
+        body = ["REDIM %s(%s)" % (n, rng.choice(["10", "20", "2, 2"])) for _ in range(rng.randrange(2, 5))]
+        if rng.random() < 0.3:
+            body.insert(rng.randrange(len(body)), rng.choice(["DIM %s(4)" % n, "DIM %s" % n, "%s = 1" % n, "ERASE %s" % n]))
+        stmts.append("SUB G%s\n%s\nEND SUB" % (n.replace(".", ""), "\n".join(body)))
+        stmts.append("%s %s(%s)" % (rng.choice(["REDIM SHARED", "DIM SHARED", "REDIM", "COMMON SHARED"]), n, rng.choice(["5", "5, 5"])))
     rng.shuffle(stmts)
     return "\n".join(stmts) + rng.choice(["\n", "", "\r\n"])
 
@@ -280,7 +312,7 @@ def judge(text, rep):
 def shard(ctx):
     r = ShardResult()
     rng = ctx.rng
-    w = Worker()
+    w = Worker(mem_mb=2048)   # a text that makes parsing or checking ask for more than 2 GiB aborts the worker: counted as a crash
     texts = corpus.load()
     n_total = ctx.params["n"]
     n = n_total // ctx.n
@@ -340,6 +372,8 @@ def shard(ctx):
                 text = text[:4000]
         elif kind == "nesting":
             text = gen_nesting(rng)
+        elif rng.random() < 0.03:
+            text = gen_const_chain(rng)
         else:
             text = gen_semantic_soup(rng)
         one(kind, text)
